@@ -48,10 +48,11 @@ ASSUMPTIONS = [
     'After a crash a follow-up call may raise (accepted, counted in distinct_outcomes); it must never return '
     'anything but a Specification with the uncached behaviour.',
     'Quick tier: option combinations are the one-deviation set {ber, uper, ber+numeric, ber+adb, uper+numeric}; '
-    'crash points: every state-changing syscall of the population of an empty cache with the small sources (the '
-    'large value-file population and the populated-cache scenarios are thorough only); damage: every 4th byte of '
-    'the first stored pickle and every 64th byte elsewhere in cache.db of the small cache, every 128th byte of '
-    'the value file of the large one, plus the truncations.',
+    'crash points: every state-changing syscall of the population of an empty cache with the small sources except '
+    'that of the pwrite64 class (SQLite page writes, 156 of 193 points) every 3rd point is taken (the large '
+    'value-file population and the populated-cache scenarios, and every pwrite64 point, are thorough only); damage: '
+    'every 8th byte of the first stored pickle and every 128th byte elsewhere in cache.db of the small cache, every '
+    '256th byte of the value file of the large one, plus the truncations.',
 ]
 
 OPTS_FULL = [(c, ne, adb) for c in ('ber', 'uper') for ne in (False, True) for adb in (False, True)]
@@ -64,8 +65,8 @@ EDIT = {'edit': True}
 def tier_cfg(tier):
     if tier == 'quick':
         return {'H': 3, 'opts': OPTS_QUICK,
-                'crash': [('empty-small', None)],
-                'damage': [('small', 'db', 'value1s4+stride64', 8), ('big', 'val', 'stride128', 2)]}
+                'crash': [('empty-small', None)], 'crash_stride': {'pwrite64': 3},
+                'damage': [('small', 'db', 'value1s8+stride128', 8), ('big', 'val', 'stride256', 2)]}
     return {'H': 3, 'opts': OPTS_FULL, 'H_reduced': 4,
             'crash': [('empty-small', None), ('empty-big', None), ('populated-small', None), ('populated-big', None)],
             'damage': [('small', 'db', 'stride1', 96), ('big', 'val', 'stride1', 64), ('big', 'db', 'stride2-nokey', 48),
@@ -90,6 +91,7 @@ def bounds(tier):
          'file_lists': {k: list(fs.LISTS[k]) for k in BFS_LISTS + ('BAD',)},
          'crash_scenarios': [s for s, _ in cfg['crash']],
          'crash_classes_excluded': {s: list(x) for s, x in cfg['crash'] if x},
+         'crash_point_stride_per_syscall_class': cfg.get('crash_stride', {}),
          'damage_scenarios': ['%s/%s/%s' % d[:3] for d in cfg['damage']],
          'damage_patterns': ['truncate to 0, 1, len/2, len-1'] + [p for p, _ in fs.PATTERNS]}
     if cfg.get('H_reduced'):
@@ -751,7 +753,8 @@ def units(tier):
             if excluded and sc in excluded:
                 continue
             pts = [(k, n, desc) for k, (n, desc) in enumerate(points[sc])]
-            per = 6
+            pts = pts[::cfg.get('crash_stride', {}).get(sc, 1)]
+            per = 4
             for i in range(0, len(pts), per):
                 out.append(('crash', scn, sc, pts[i:i + per]))
     for scn, filekind, mode, nchunks in cfg['damage']:
